@@ -7,6 +7,7 @@ import (
 	"fmt"
 	"os"
 	"runtime/debug"
+	"strconv"
 	"strings"
 	"testing"
 
@@ -26,6 +27,31 @@ type Case struct {
 	Pre    *gen.TV   `json:"pre"` // nil: the zero value
 	Cfg    *gen.Tree `json:"cfg"`
 	VarExp bool      `json:"varexp,omitempty"`
+	Policy int       `json:"policy,omitempty"` // global list policy given to Unpack: 0 none, 1 replace, 2 append, 3 prepend
+}
+
+func lastSeg(path string) string { return path[strings.LastIndex(path, ".")+1:] }
+
+func blankIndices(path string) string {
+	segs := strings.Split(path, ".")
+	for i, s := range segs {
+		if _, err := strconv.Atoi(s); err == nil {
+			segs[i] = "#"
+		}
+	}
+	return strings.Join(segs, ".")
+}
+
+func hasPolicyTag(td *gen.TD) bool {
+	if td == nil {
+		return false
+	}
+	for i := range td.Fields {
+		if td.Fields[i].Policy != "" || hasPolicyTag(td.Fields[i].T) {
+			return true
+		}
+	}
+	return hasPolicyTag(td.Elem)
 }
 
 // ---------------------------------------------------------------------------
@@ -258,6 +284,17 @@ func runCase(c Case, r *runlog.R) error {
 		opts = append(opts, ucfg.VarExp)
 	}
 	var cfg *ucfg.Config
+	// the list policy decides which pre-filled elements survive next to configured ones; twin and real
+	// target are unpacked under the same policy, so the differential holds under each of them
+	unpackOpts := opts
+	switch c.Policy {
+	case 1:
+		unpackOpts = append(append([]ucfg.Option{}, opts...), ucfg.ReplaceValues)
+	case 2:
+		unpackOpts = append(append([]ucfg.Option{}, opts...), ucfg.AppendValues)
+	case 3:
+		unpackOpts = append(append([]ucfg.Option{}, opts...), ucfg.PrependValues)
+	}
 	if err := uc.Safe("NewFrom", func() (e error) { cfg, e = ucfg.NewFrom(c.Cfg.Go(), opts...); return }); err != nil {
 		// building a configuration from plain data is not this property's subject
 		r.Class("discarded: NewFrom failed")
@@ -273,7 +310,7 @@ func runCase(c Case, r *runlog.R) error {
 	}
 
 	// R: what a validation-free Unpack produces
-	if err, panicked := safely(func() error { return cfg.Unpack(twin.Interface(), opts...) }); err != nil {
+	if err, panicked := safely(func() error { return cfg.Unpack(twin.Interface(), unpackOpts...) }); err != nil {
 		if panicked {
 			return fmt.Errorf("Unpack into the twin type (no validators) panicked: %v%s", err, describe())
 		}
@@ -303,7 +340,7 @@ func runCase(c Case, r *runlog.R) error {
 	}
 
 	real := c.T.New(c.Pre)
-	uerr, panicked := safely(func() error { return cfg.Unpack(real.Interface(), opts...) })
+	uerr, panicked := safely(func() error { return cfg.Unpack(real.Interface(), unpackOpts...) })
 	if panicked {
 		return fmt.Errorf("Unpack panicked: %v%s", uerr, describe())
 	}
@@ -327,17 +364,26 @@ func runCase(c Case, r *runlog.R) error {
 	case len(strict) == 0 && len(soft) == 0:
 		return fmt.Errorf("every validator accepts the result of a validation-free Unpack, but Unpack failed: %v%s\n expected %s", uerr, describe(), gen.Show(twin.Elem()))
 	default:
-		// the error has to name a rejected field or a field enclosing it
+		// the error has to name a rejected field or a field enclosing it. Under append/prepend/replace an element's
+		// position in the result differs from the index of the setting it came from (which is what the error
+		// names), so list indices are not compared then.
+		listPolicy := c.Policy != 0 || hasPolicyTag(c.T)
 		named, ok := namedPath(uerr.Error())
 		match := false
 		if ok && named != "" {
 			for _, e := range append(append([]*eval{}, strict...), soft...) {
 				for _, n := range e.names() {
-					if n == named {
+					if n == named || (listPolicy && blankIndices(n) == blankIndices(named)) {
 						match = true
 					}
 				}
 			}
+		}
+		if !match && listPolicy && c.VarExp {
+			// an element that arrived through a reference is named by the path of the referenced setting, to which
+			// its position in the result does not lead once a list policy moved it: the name is not compared
+			r.Class("name not compared (list policy and references)")
+			match = true
 		}
 		if !match && open("D44") {
 			// class of D44: the names of absent struct fields on the way are
